@@ -3,6 +3,7 @@ import RV.C03.NumLemmas
 import RV.C03.ListLemmas
 import RV.C03.LayoutLemmas
 import RV.C03.PreLemmas
+import RV.C03.ChoiceLemmas
 import RV.C03.NTLineLemmas
 import RV.C03.BaseRelLemmas
 import RV.C03.RefSplitLemmas
@@ -404,6 +405,58 @@ example : denote (layout nested [1, 2] 3) =
     [(.iri 10, .iri 11, .bn (.fresh [0, 0])), (.bn (.fresh [0, 0]), .iri 12, .lit 5),
      (.bn (.fresh [0, 0]), .iri 13, .bn (.fresh [1, 0, 0])), (.bn (.fresh [1, 0, 0]), .iri 12, .lit 6)] := by
   decide
+
+/-! ## Layer 2 — structure: what rdflib's recursive writer really chooses -/
+
+/-- `rdflib_choice_pre`: for EVERY graph (a duplicate-free list of triples over IRIs, literals and its own blank
+    nodes, IRI predicates) and EVERY order in which the loop of `serialize` visits subjects, the blank nodes that the
+    model of rdflib's recursive Turtle / longturtle / N3 writer (`choiceOn`: `statement`, `s_squared`, `path`,
+    `p_squared` with its `_serialized` / `_references` tests, `isValidList` + `doList`, the `_serialized` state
+    threaded through the recursion) leaves unlabelled in object position satisfy `Pre`: each is referenced exactly
+    once and no cycle consists of such nodes only.  Holds for every order of predicates and objects inside a
+    statement (the order of the list `g`) and for any nesting fuel. -/
+def Statement_rdflib_choice_pre : Prop :=
+  ∀ (g : Graph) (order : List Term), g.Nodup → (∀ t ∈ g, origOnly t.1 ∧ origOnly t.2.2) →
+    (∀ t ∈ g, ∃ k, t.2.1 = .iri k) →
+    ∃ rank, Pre g (hiddenIds (choiceOn g order)) ((choiceOn g order).1.2.length + 1) rank
+
+/-- … hence `layout_roundtrip` applies to what rdflib chooses: the document with exactly those nodes inlined
+    (`rdflibLayout`, subjects visited in `orderSubjects` order) denotes a graph isomorphic to the one written. -/
+def Statement_rdflib_layout_roundtrip : Prop :=
+  ∀ (g : Graph) (ord : List Nat), g.Nodup → (∀ t ∈ g, origOnly t.1 ∧ origOnly t.2.2) →
+    (∀ t ∈ g, ∃ k, t.2.1 = .iri k) → Iso g (denote (rdflibLayout g ord))
+
+/-- `orderSubjects` lists every subject of the graph exactly once (whatever the term order `ord`): the loop of
+    `serialize` visits each subject, none twice. -/
+def Statement_orderSubjects_complete : Prop :=
+  ∀ (g : Graph) (ord : List Nat), (orderSubjects g ord).Nodup ∧
+    ∀ s, s ∈ orderSubjects g ord ↔ ∃ p o, (s, p, o) ∈ g
+
+theorem rdflib_choice_pre : Statement_rdflib_choice_pre := by
+  intro g order hnd ho hpi
+  exact ⟨_, pre_of_CInv hnd ho hpi (choiceOn_inv hnd order)⟩
+
+theorem rdflib_layout_roundtrip : Statement_rdflib_layout_roundtrip := by
+  intro g ord hnd ho hpi
+  exact layout_roundtrip' (pre_of_CInv hnd ho hpi (choiceOn_inv hnd (orderSubjects g ord)))
+
+theorem orderSubjects_complete : Statement_orderSubjects_complete :=
+  fun g ord => ⟨nodup_orderSubjects g ord, mem_orderSubjects g ord⟩
+
+/-- non-vacuity.  `nested` (above): both nested nodes are hidden.  `twoCycle`: `_:1 p _:2 . _:2 p _:1` with no
+    other entry point — the writer labels the one it starts with and hides the other (no cycle of hidden nodes).
+    `sharedTail`: the chain is malformed for `( … )` (second cell referenced twice): cell 1 is hidden as a bracket,
+    the shared cell 2 keeps its label — and so does cell 3, although referenced once: its referrer `_:2` is visited
+    after it (subjects with fewer references come first), so it was written at top level already.  The proper list
+    `( 1 2 3 )`: all three cells hidden.  An unreferenced blank node is written `[] …`. -/
+def twoCycle : Graph := [(bnO 1, .iri 11, bnO 2), (bnO 2, .iri 11, bnO 1)]
+
+example : hiddenIds (choice nested []) = [1, 2] := by decide
+example : hiddenIds (choice twoCycle []) = [2] ∧ (choice twoCycle []).2 = [(bnO 1, false)] := by decide
+example : hiddenIds (choice sharedTail []) = [1] := by decide
+example : hiddenIds (choice (sharedTail.take 7) []) = [1, 2, 3] := by decide
+example : (choice [(bnO 1, .iri 11, .lit 1), (bnO 2, .iri 11, bnO 2)] []).2 = [(bnO 1, true), (bnO 2, false)] := by decide
+example : wDeep nested [] = false ∧ wDeep sharedTail [] = false := by decide
 
 /-! ## Layer 3 — HexTuples rows -/
 
